@@ -369,3 +369,247 @@ HANDWRITTEN = {
         "Select(EventDataset('ds'), lambda e: e.Jets('A').Select(lambda j: e.Tracks('B').Where(lambda t: DeltaR(j.eta(), j.phi(), t.eta(), t.phi()) < 1.5).Count()))",
     ],
 }
+
+
+def c02_extra(backend):
+    "Programs aimed at declaration/scope/typing corner cases (C02)."
+    v = VOCAB[backend]
+    P, S = v["prim"], v["sec"]
+    qs = [
+        f"Select(EventDataset('ds'), lambda e: e.{P}('A').Select(lambda j: (j.pt() if j.eta() > 0 else j.phi()) if j.pt() > 1 else 0.0))",
+        f"Select(EventDataset('ds'), lambda e: e.{P}('A').Where(lambda j: j.pt() > 1 or j.eta() > 1 and j.phi() > 1).Count())",
+        f"Select(EventDataset('ds'), lambda e: (e.{P}('A').Count(), e.{P}('A').Count()))",
+        f"Select(EventDataset('ds'), lambda e: (e.{P}('A').Select(lambda j: j.pt()), e.{P}('A').Select(lambda j: j.pt())))",
+        f"Select(EventDataset('ds'), lambda e: e.{P}('A').Select(lambda j: e.{P}('A').Count()))",
+        f"Select(EventDataset('ds'), lambda e: e.{P}('A').Select(lambda j: e.{S}('B').Select(lambda t: e.{P}('A').Where(lambda k: k.pt() > t.pt() + j.pt()).Count())))",
+        f"Select(EventDataset('ds'), lambda e: e.{P}('A').Select(lambda j: j.pt()).First() + e.{P}('A').Select(lambda j: j.eta()).First())",
+        f"Select(EventDataset('ds'), lambda e: e.{P}('A').Where(lambda j: e.{S}('B').Where(lambda t: t.pt() > j.pt()).Count() > 0).Select(lambda j: j.pt()))",
+        f"Select(SelectMany(EventDataset('ds'), lambda e: e.{P}('A').Select(lambda j: (j, e.{S}('B').Count()))), lambda p: p[0].pt() * p[1])",
+        f"Select(EventDataset('ds'), lambda e: e.{P}('A').Select(lambda j: j.pt() % 2))",
+        f"Select(EventDataset('ds'), lambda e: e.{P}('A').Select(lambda j: j.nTrk() % 2))",
+        f"Select(EventDataset('ds'), lambda e: e.{P}('A').Select(lambda j: j.pt() ** 2))",
+    ]
+    return qs
+
+
+# ------------------------------------------------------------------ C03: terminal forms x kinds
+KIND_EXPRS = {
+    "double": "j.pt()", "float": "j.ptf()", "int": "j.nTrk()", "bool": "j.isGood()",
+    "div": "j.nTrk() / 2", "cond": "(j.nTrk() if j.isGood() else 2)", "cmp": "j.pt() > j.eta()",
+    "boolop": "(j.pt() > 1 and j.isGood())", "sum": "j.nTrk() + 1", "neg": "(-j.nTrk())",
+}
+EVENT_KIND_EXPRS = {
+    "count": "e.PRIM('A').Count()", "sumd": "e.PRIM('A').Select(lambda j: j.pt()).Sum()",
+    "sumi": "e.PRIM('A').Select(lambda j: j.nTrk()).Sum()", "cmp": "e.PRIM('A').Count() > 1",
+    "div": "e.PRIM('A').Count() / 2",
+}
+
+
+def c03_programs(backend, tier):
+    v = VOCAB[backend]
+    P, S = v["prim"], v["sec"]
+    out = []
+
+    def add(q, tags=()):
+        out.append(make_program(q.replace("PRIM", P).replace("SEC", S), backend, tags=tags))
+    for k, x in KIND_EXPRS.items():
+        add(f"Select(EventDataset('ds'), lambda e: e.PRIM('A').Select(lambda j: {x}))")
+        add(f"Select(SelectMany(EventDataset('ds'), lambda e: e.PRIM('A')), lambda j: {x})")
+        add(f"Select(EventDataset('ds'), lambda e: e.PRIM('A').Select(lambda j: e.SEC('B').Select(lambda t: {x.replace('j.', 't.')})))")
+    for k, x in EVENT_KIND_EXPRS.items():
+        add(f"Select(EventDataset('ds'), lambda e: {x})")
+    kinds = list(KIND_EXPRS.items())
+    pairs = [(kinds[i], kinds[(i + 1) % len(kinds)]) for i in range(len(kinds))]
+    if tier == "thorough":
+        pairs = [(a, b) for a in kinds for b in kinds if a != b]
+    for (ka, xa), (kb, xb) in pairs:
+        add(f"Select(EventDataset('ds'), lambda e: (e.PRIM('A').Select(lambda j: {xa}), e.PRIM('A').Select(lambda j: {xb})))")
+        add(f"Select(EventDataset('ds'), lambda e: [e.PRIM('A').Select(lambda j: {xa}), e.PRIM('A').Count()])")
+        add(f"Select(EventDataset('ds'), lambda e: {{'x': e.PRIM('A').Select(lambda j: {xa}), 'y': e.PRIM('A').Select(lambda j: {xb}), 'n': e.PRIM('A').Count()}})")
+        add(f"Select(SelectMany(EventDataset('ds'), lambda e: e.PRIM('A')), lambda j: ({xa}, {xb}))")
+        add(f"Select(SelectMany(EventDataset('ds'), lambda e: e.PRIM('A')), lambda j: {{'second': {xb}, 'first': {xa}}})")
+        add(f"ResultTTree(Select(EventDataset('ds'), lambda e: (e.PRIM('A').Select(lambda j: {xa}), e.PRIM('A').Select(lambda j: {xb}))), ('ca', 'cb'), 'tree_x', 'file.root')")
+    # explicit names: n names for m columns, n, m <= 3
+    cols = ["e.PRIM('A').Count()", "e.PRIM('A').Select(lambda j: j.pt())", "e.SEC('B').Count()"]
+    names = ["n1", "n2", "n3"]
+    for m in (1, 2, 3):
+        for n in (1, 2, 3):
+            body = cols[0] if m == 1 else "(" + ", ".join(cols[:m]) + ")"
+            nm = repr(names[0]) if n == 1 else repr(tuple(names[:n]))
+            add(f"ResultTTree(Select(EventDataset('ds'), lambda e: {body}), {nm}, 'tt', 'f.root')",
+                tags=() if n == m else ("must_raise",))
+    return out
+
+
+# ------------------------------------------------------------------ C04: partial operations under guards
+def c04_programs(backend, tier):
+    v = VOCAB[backend]
+    P, S = v["prim"], v["sec"]
+    out = []
+
+    def add(q, tags=(), dm_extra=None):
+        q = q.replace("PRIM", P).replace("SEC", S)
+        prog = make_program(q, backend, tags=tags)
+        out.append(prog)
+    qs = [
+        # First on possibly empty sequences: unguarded -> loud fault exactly when empty
+        "Select(EventDataset('ds'), lambda e: e.PRIM('A').First().pt())",
+        "Select(EventDataset('ds'), lambda e: e.PRIM('A').Where(lambda j: j.pt() > 1.5).First().eta())",
+        "Select(EventDataset('ds'), lambda e: e.PRIM('A').Where(lambda j: j.pt() > 1.5).Select(lambda j: j.eta()).First())",
+        "Select(EventDataset('ds'), lambda e: e.PRIM('A').Select(lambda j: e.SEC('B').Where(lambda t: t.pt() > j.pt()).First().eta()))",
+        "Select(EventDataset('ds'), lambda e: (e.PRIM('A').Count(), e.PRIM('A').First().pt()))",
+        "Select(SelectMany(EventDataset('ds'), lambda e: e.PRIM('A')), lambda j: j.vals().First())",
+        "Select(EventDataset('ds'), lambda e: e.PRIM('A').Select(lambda j: j.vals().First()))",
+        # guarded by an event-level Where
+        "Select(Where(EventDataset('ds'), lambda e: e.PRIM('A').Count() > 0), lambda e: e.PRIM('A').First().pt())",
+        "Select(Where(EventDataset('ds'), lambda e: e.PRIM('A').Where(lambda j: j.pt() > 1.5).Count() > 0), lambda e: e.PRIM('A').Where(lambda j: j.pt() > 1.5).First().eta())",
+        "Select(Where(EventDataset('ds'), lambda e: e.PRIM('A').Count() > 0 and e.PRIM('A').First().pt() > 1), lambda e: e.PRIM('A').Count())",
+        "Select(Where(EventDataset('ds'), lambda e: e.PRIM('A').Count() == 0 or e.PRIM('A').First().pt() > 1), lambda e: e.PRIM('A').Count())",
+        "Select(Where(EventDataset('ds'), lambda e: e.PRIM('A').Count() > 1), lambda e: e.PRIM('A').Count())",
+        # guarded inside the expression
+        "Select(EventDataset('ds'), lambda e: e.PRIM('A').First().pt() if e.PRIM('A').Count() > 0 else 0.0)",
+        "Select(EventDataset('ds'), lambda e: e.PRIM('A').Count() > 0 and e.PRIM('A').First().pt() > 1)",
+        "Select(EventDataset('ds'), lambda e: e.PRIM('A').Count() == 0 or e.PRIM('A').First().pt() > 1)",
+        "Select(EventDataset('ds'), lambda e: e.PRIM('A').Select(lambda j: e.SEC('B').Where(lambda t: t.pt() > j.pt()).Count() > 0 and e.SEC('B').Where(lambda t: t.pt() > j.pt()).First().eta() > 0))",
+        "Select(EventDataset('ds'), lambda e: e.PRIM('A').Where(lambda j: e.SEC('B').Count() > 0).Select(lambda j: e.SEC('B').First().pt() + j.pt()))",
+        # indexing
+        "Select(EventDataset('ds'), lambda e: e.PRIM('A').Select(lambda j: j.vals()[0]))",
+        "Select(EventDataset('ds'), lambda e: e.PRIM('A').Select(lambda j: j.vals()[1] if j.vals().Count() > 1 else 0.0))",
+        "Select(EventDataset('ds'), lambda e: e.PRIM('A').Where(lambda j: j.vals().Count() > 1).Select(lambda j: j.vals()[1]))",
+        "Select(EventDataset('ds'), lambda e: e.PRIM('A').Select(lambda j: j.vals().Count() > 0 and j.vals()[0] > 1))",
+        "Select(EventDataset('ds'), lambda e: e.PRIM('A').Select(lambda j: j.vals().Count() == 0 or j.vals()[0] > 1))",
+        "Select(SelectMany(EventDataset('ds'), lambda e: e.PRIM('A')).Where(lambda j: j.vals().Count() > 2), lambda j: j.vals()[2])",
+        "Select(SelectMany(EventDataset('ds'), lambda e: e.PRIM('A')), lambda j: j.ivals()[j.nTrk()])",
+    ]
+    for q in qs:
+        add(q)
+    if backend in ("cms_aod", "cms_miniaod"):
+        m = "globalTrack"
+        cm = "Muons"
+        nq = [
+            f"Select(EventDataset('ds'), lambda e: e.{cm}('A').Where(lambda m: isNonnull(m.{m}())).Select(lambda m: m.{m}().pt()))",
+            f"Select(EventDataset('ds'), lambda e: e.{cm}('A').Select(lambda m: isNonnull(m.{m}()) and m.{m}().pt() > 1))",
+            f"Select(EventDataset('ds'), lambda e: e.{cm}('A').Select(lambda m: m.{m}().pt() if isNonnull(m.{m}()) else 0.0))",
+            f"Select(EventDataset('ds'), lambda e: e.{cm}('A').Where(lambda m: isNonnull(m.{m}()) and m.{m}().pt() > 1).Count())",
+            f"Select(EventDataset('ds'), lambda e: e.{cm}('A').Select(lambda m: (not isNonnull(m.{m}())) or m.{m}().pt() > 1))",
+            f"Select(SelectMany(EventDataset('ds'), lambda e: e.{cm}('A')).Where(lambda m: isNonnull(m.{m}())), lambda m: m.{m}().eta())",
+            f"Select(EventDataset('ds'), lambda e: e.{cm}('A').Select(lambda m: isNonnull(m.{m}())))",
+        ]
+        for q in nq:
+            out.append(make_program(q, backend))
+    return out
+
+
+# ------------------------------------------------------------------ C12: math function table
+def c12_programs(backend, names=None):
+    from . import mathfn
+    v = VOCAB[backend]
+    P = v["prim"]
+    out = []
+    for fn in (names or mathfn.DOCUMENTED):
+        if fn in mathfn.NON_NUMERIC_SIGNATURE:
+            continue
+        ar = mathfn.ARITY.get(fn, 1)
+        int_second = fn in ("ldexp", "scalbn", "scalbln")
+        args = ["j.pt()", "j.eta()", "j.phi()"][:ar]
+        if int_second:
+            args[1] = "j.nTrk()"
+        call = f"{fn}({', '.join(args)})"
+        iargs = list(args)
+        iargs[0] = "j.nTrk()"
+        icall = f"{fn}({', '.join(iargs)})"
+        for form, tag in ((call, "standalone"), (f"{call} * 2 + 1", "arith"), (f"{call} > 0.5", "compare"),
+                          (icall, "intarg"), (f"1.5 - {call} / 2", "arith2")):
+            q = f"Select(EventDataset('ds'), lambda e: e.{P}('A').Select(lambda j: {form}))"
+            out.append(make_program(q, backend, label=fn, tags=("math:" + fn, tag)))
+    q = f"Select(EventDataset('ds'), lambda e: e.{P}('A').Select(lambda j: j.pt() ** 2))"
+    out.append(make_program(q, backend, label="**", tags=("math:pow", "operator")))
+    return out
+
+
+# ------------------------------------------------------------------ C13: operator x operand-kind table
+OPERAND = {"intlit": "2", "intcount": "e.PRIM('A').Count()", "intm": "j.nTrk()", "float": "j.ptf()", "double": "j.pt()", "bool": "j.isGood()"}
+
+
+def c13_programs(backend, tier):
+    v = VOCAB[backend]
+    P = v["prim"]
+    out = []
+
+    def add(expr, tags):
+        q = f"Select(EventDataset('ds'), lambda e: e.PRIM('A').Select(lambda j: {expr}))".replace("PRIM", P)
+        out.append(make_program(q, backend, tags=tags))
+    ops = ["+", "-", "*", "/", "%", "**"]
+    for op in ops:
+        for ka, a in OPERAND.items():
+            for kb, b in OPERAND.items():
+                if ka == "intlit" and kb == "intlit":
+                    continue
+                add(f"{a} {op} {b}", ("binop", op, ka, kb))
+    for ka, a in OPERAND.items():
+        if ka == "intlit":
+            continue
+        add(f"-{a}", ("unary", "-", ka))
+        add(f"+{a}", ("unary", "+", ka))
+        add(f"not {a}", ("unary", "not", ka))
+    for cmp in ["<", "<=", ">", ">=", "==", "!="]:
+        for ka, a in OPERAND.items():
+            for kb, b in OPERAND.items():
+                if ka == "intlit" and kb == "intlit":
+                    continue
+                if tier == "quick" and cmp in ("<=", ">=", "!=") and not (ka == "double" or kb == "double"):
+                    continue
+                add(f"{a} {cmp} {b}", ("compare", cmp, ka, kb))
+    for ka, a in OPERAND.items():
+        for kb, b in OPERAND.items():
+            add(f"({a} if j.eta() > 0 else {b})", ("cond", ka, kb))
+    # aggregates: accumulators at least as wide as what is folded in
+    elems = {"intm": "j.nTrk()", "float": "j.ptf()", "double": "j.pt()", "mixed": "j.nTrk() + j.pt()", "divi": "j.nTrk() / 2"}
+    for ke, x in elems.items():
+        for agg in ("Sum()", "Max()", "Min()"):
+            q = f"Select(EventDataset('ds'), lambda e: e.{P}('A').Select(lambda j: {x}).{agg})"
+            out.append(make_program(q, backend, tags=("agg", agg, ke)))
+        for ks, seed in (("int", "0"), ("double", "0.0"), ("int1", "1")):
+            q = f"Select(EventDataset('ds'), lambda e: e.{P}('A').Select(lambda j: {x}).Aggregate({seed}, lambda acc, x: acc + x))"
+            out.append(make_program(q, backend, tags=("agg", "Aggregate", ks, ke)))
+            q = f"Select(EventDataset('ds'), lambda e: e.{P}('A').Select(lambda j: {x}).Aggregate({seed}, lambda acc, x: acc + x * 2))"
+            out.append(make_program(q, backend, tags=("agg", "Aggregate2", ks, ke)))
+    return out
+
+
+def cpp_function_md(name, args, code, ret="double", result="result", method_object=None, instance_object=None, collection=False):
+    d = {"metadata_type": "add_cpp_function", "name": name, "include_files": [], "arguments": list(args), "code": list(code),
+         "result_name": result, "return_type": ret}
+    if method_object:
+        d["method_object"] = method_object
+        d["instance_object"] = instance_object or "obj"
+    if collection:
+        d["return_is_collection"] = True
+    return d
+
+
+def c05_extra(backend):
+    "Programs whose values come from user C++ (opaque to the translator)."
+    import z3
+    from .model import Num, real
+    v = VOCAB[backend]
+    P = v["prim"]
+    out = []
+
+    def prog(q, fns):
+        dm = datamodel_for(q, backend)
+        for f in fns:
+            dm.cpp_functions.append(f)
+        return Program(with_metadata(q, dm), backend, dm, src=q, tags=("cppfn",))
+    f1 = cpp_function_md("twice", ["x"], ["double result = x * 2;"])
+    f1["ref_lambda"] = lambda ref, a, g: Num("double", real(a[0]) * 2)
+    f1["py_lambda"] = lambda cref, a: ("double", float(a[0][1]) * 2)
+    f2 = cpp_function_md("addmul", ["x", "y"], ["auto t = x + y;", "double result = t * 3;"])
+    f2["ref_lambda"] = lambda ref, a, g: Num("double", (real(a[0]) + real(a[1])) * 3)
+    f2["py_lambda"] = lambda cref, a: ("double", (float(a[0][1]) + float(a[1][1])) * 3)
+    out.append(prog(f"Select(EventDataset('ds'), lambda e: e.{P}('A').Select(lambda j: twice(j.pt())))", [f1]))
+    out.append(prog(f"Select(EventDataset('ds'), lambda e: e.{P}('A').Select(lambda j: twice(j.pt()) + twice(j.eta())))", [f1]))
+    out.append(prog(f"Select(EventDataset('ds'), lambda e: e.{P}('A').Where(lambda j: twice(j.pt()) > 3).Select(lambda j: addmul(j.eta(), j.pt())))", [f1, f2]))
+    out.append(prog(f"Select(EventDataset('ds'), lambda e: e.{P}('A').Select(lambda j: addmul(j.eta(), twice(j.pt()))).Sum())", [f1, f2]))
+    out.append(prog(f"Select(SelectMany(EventDataset('ds'), lambda e: e.{P}('A')), lambda j: (twice(j.pt()), j.eta()))", [f1]))
+    return out
